@@ -166,6 +166,9 @@ func (r *c18Run) genOp(root any) c18Op {
 	default:
 		p = g.queryPath(root)
 	}
+	if op.Op == "G" && p.definite() && g.r.Chance(40) {
+		op.Op = "N" // the Lisp-level result (slip.SimpleObject of the node) instead of a bag
+	}
 	op.Path = strings.Join(p.wire(), " ")
 	if op.Op == "S" {
 		v := g.doc(2)
@@ -196,6 +199,17 @@ func (r *c18Run) execOp(b *flavors.Instance, op c18Op) c18OpObs {
 	case "G":
 		ob.result, ob.msg = r.getCanon(b, p, op.Mode)
 		ob.allList = r.bagList(r.impl.eval("(bag-get-all c18-b c18-p)", binds))
+	case "N":
+		src := "(bag-get c18-b c18-p)"
+		if send {
+			src = "(send c18-b :get c18-p)"
+		}
+		o := r.impl.eval(src, binds)
+		if !o.Ok {
+			ob.result, ob.msg = "err "+o.Class, o.Msg
+		} else {
+			ob.result = canonTokenString(strings.Join(encLisp(o.Value), " "))
+		}
 	case "H":
 		src := "(bag-has c18-b c18-p)"
 		if send {
@@ -289,7 +303,7 @@ func (r *c18Run) execOp(b *flavors.Instance, op c18Op) c18OpObs {
 }
 
 func opName(op string) string {
-	return map[string]string{"G": "get", "H": "has", "A": "get-all", "W": "walk", "S": "set", "R": "remove"}[op]
+	return map[string]string{"G": "get", "N": "get-native", "H": "has", "A": "get-all", "W": "walk", "S": "set", "R": "remove"}[op]
 }
 
 func nilIfNull(c string) string {
@@ -379,7 +393,7 @@ func (r *c18Run) runOps(cases []*c18Case) {
 			}
 			m := strings.TrimSpace(parts[k])
 			steps, valKind := ob.steps, ob.valKind
-			trailing := len(ob.path) > 0 && ob.path[len(ob.path)-1].kind == 'd' && ob.op.Op != "S" && ob.op.Op != "R"
+			trailing := len(ob.path) > 0 && ob.path[len(ob.path)-1].kind == 'd' && ob.op.Op != "S" && ob.op.Op != "R" && ob.op.Op != "N"
 			if trailing {
 				// a query path ending in a descent is outside JSONPath (RFC 9535); ojg accepts it:
 				// only the relations between the implementation's own answers are checked
@@ -466,6 +480,9 @@ func (r *c18Run) compareOp(ob c18OpObs, m string) (string, string, bool) {
 		return m, "condition", false
 	}
 	switch ob.op.Op {
+	case "N":
+		exp := canonTokenString(m)
+		return exp, "wrong-lisp-value", ob.result == exp
 	case "H":
 		return m, "wrong-answer", ob.result == m
 	case "G":
